@@ -37,6 +37,7 @@ PROPS = {
                         "field ranges: uint32/uint64 fields, lengths < 2^64 (Tx.wf)"],
     },
     "C02": {
+        "caller_memory_clause": True,
         "manifest": {
             "text": "Lean 4 theorems: the model of CalcInputPreimage equals the ten-item BSV replay-protected digest specification for every transaction, index and hash-type byte; exactly the three error cases are errors, in order; the digest is the double hash of the preimage (a FORKID preimage is never 32 bytes); ANYONECANPAY/NONE independence lemmas. The specification is validated on every run against the 500 node-generated BIP143 vectors shipped in the repository; the model is tied to the code by a differential check over all 128 FORKID hash types x generated shapes, which also compares the implementation's output with the specification directly and checks the transaction is unchanged.",
             "note": "Trusted: Lean kernel + standard axioms, harness/generators/comparer, driver glue. SHA-256 is a parameter of the theorems and an executable model (validated on vectors) in the driver.",
@@ -50,6 +51,7 @@ PROPS = {
         "assumptions": ["the BSV digest specification is transcribed correctly in bip143Spec (validated against 500 node-generated vectors with amount 0)"],
     },
     "C03": {
+        "caller_memory_clause": True,
         "manifest": {
             "text": "Lean 4 theorems: the model of CalcInputPreimageLegacy (clone, blank, truncate, re-serialise; built on the C01 clone theorem) equals the original Satoshi serialisation for every well-formed transaction, in-range index and hash-type byte; SINGLE without a matching output yields the constant 1 un-hashed; every other legacy preimage is longer than 32 bytes so the shortcut never fires falsely. The specification is validated against the 500 node-generated legacy vectors shipped in the repository; the model is tied to the code by a differential check over all 128 non-FORKID hash types x generated shapes, including the comparison of the implementation's output with the specification and an unchanged-transaction check.",
             "note": "Trusted: Lean kernel + standard axioms, harness/generators/comparer, driver glue; SHA-256 executable model validated on vectors.",
@@ -266,6 +268,7 @@ PROPS = {
         "assumptions": ["address-space limit of the child processes is an adequate stand-in for 'crashes the process'"],
     },
     "C08": {
+        "caller_memory_clause": True,
         "manifest": {
             "text": "Every alias pattern {pushed from the script, DUP, 2DUP, 3DUP, OVER, 2OVER, PICK, TUCK, IFDUP, via the alt stack, ROLL of a duplicate, both halves of SPLIT} x every value-changing opcode (with shift counts 0..17, NUM2BIN/SPLIT sizes, bitwise, arithmetic, hashes) x operand shapes x both eras is executed on the real interpreter and compared item by item after every step with the value-semantics Lean model (an in-place write shows up as a differing twin), and the caller's script buffers and transaction bytes are compared before and after every execution (also with a transaction context). Lean theorems over a reference-semantics model of stack items (slices into heap cells): a handler that allocates its result changes the top item only - every other item keeps its value whatever the sharing; DUP and SPLIT only create references; machine-checked witness that an in-place handler changes the twin and the script cell; regenerated write-site table (go/ssa) with the obligation that every written buffer is freshly allocated.",
             "note": "'Every handler allocates its result' is a regenerated fact: extract/writes.go (go/ssa) lists every byte store/copy/append in bscript/interpreter with the origin of the target slice, and the obligation handlers_write_only_fresh_buffers re-checks it on every run; the differential alias probes observe the same thing at run time. Trusted: Lean kernel + standard axioms, harness/generators/comparer, driver glue.",
